@@ -239,6 +239,17 @@ void build_universe(VU &u) {
             u.add(Memory::Move(p), "ptr->" + u.name[t], u.kind[t], u.num[t], u.str[t]);
         }
     }
+    // (appended later, so that the indices in older replay files keep their meaning) numbers of one kind whose bit patterns differ
+    // although their magnitudes do not, or the other way round: -0.0 next to 0.0, the smallest subnormal, 2^63 as a double
+    u.add(Value<char>{-0.0}, "d-0.0", 3, 0.0L);
+    u.add(Value<char>{4.9406564584124654e-324}, "d-denorm-min", 3, (long double)4.9406564584124654e-324);
+    u.add(Value<char>{-4.9406564584124654e-324}, "d-minus-denorm-min", 3, (long double)-4.9406564584124654e-324);
+    u.add(Value<char>{9223372036854775808.0}, "d2^63", 3, 9223372036854775808.0L);
+    {
+        Value<char> p;
+        p.SetPointerToValue(u.v[u.v.size() - 4].get());
+        u.add(Memory::Move(p), "ptr->d-0.0", 3, 0.0L);
+    }
 }
 
 int value_ref(const VU &u, size_t i, size_t j) { // reference order where the property states one, else 2 (axioms only)
